@@ -272,10 +272,10 @@ class RefChain(_GateFailures, RefMixin, PipeScenario):
 
             async def f(x):
                 g = scen.gate("f:%r" % (x,))
-                g.payload = x
-                scen.log.append(("f-in", "f", scen.loop.time(), x))
+                g.payload = _fz(x)
+                scen.log.append(("f-in", "f", scen.loop.time(), _fz(x)))
                 await g.fut
-                scen.log.append(("f-out", "f", scen.loop.time(), x))
+                scen.log.append(("f-out", "f", scen.loop.time(), _fz(x)))
                 return x
             return up.map_async(f, parallelism=a[0])
         return super().build_node(up, spec)
